@@ -581,7 +581,7 @@ def obligations(tier):
                    encoded=enc, budget_s=900 if thorough else 250, replay="peg", check_sample=True),
         Obligation("O2-peg-depth2", make_peg(d2u + (terms_depth2_binary([["char", "a"], ["string", "ab"], ["eof"]]) if thorough else []), 4 if thorough else 3, alpha), ["peg-semantics"],
                    desc="depth-2 terms: every unary combinator over every binary depth-1 term%s" % (" and every binary combinator over (depth-1 term, leaf of {Char a, String ab, EOF}) in both positions" if thorough else ""),
-                   bounds={"terms": len(d2u) + (len(terms_depth2_binary([1, 2, 3])) if thorough else 0), "input length": "<= %d" % (4 if thorough else 3)},
+                   bounds={"terms": len(d2u) + (len(terms_depth2_binary([["char", "a"], ["string", "ab"], ["eof"]])) if thorough else 0), "input length": "<= %d" % (4 if thorough else 3)},
                    encoded=enc, budget_s=1500 if thorough else 300, replay="peg", check_sample=True),
         Obligation("O3-taglang", make_tag(2), ["taglang"],
                    desc="tag expressions of depth <= 2 rendered with minimal or full parentheses and symbolic whitespace, evaluated on a symbolic tag-membership vector",
